@@ -13,6 +13,7 @@ import copy
 from collections import Counter
 
 from .. import gen
+from .. import salt as SALT
 from .. import refmodel as M
 from ..tapes import Shim, TapeExhausted, installed
 
@@ -43,7 +44,7 @@ REQUIRED = {"all": ["move:full_shuffle", "move:swapRes", "move:swapRandChargeRes
                     "move:permute_cluster_charges", "move:get_shuffled_sequence", "move:get_permutant", "chains",
                     "hostile_tapes", "parent_dmax_cached", "parent_dmax_not_cached", "frozen_nonempty", "frozen_only_zero",
                     "frozen_all_charged", "uncharged_parents", "returned_parent_itself", "carried_dmax_checked",
-                    "ancestors_checked", "frozen_as_numpy_array", "frozen_list_with_repeats", "frozen_with_negative_entries", "reduced_alphabet_parents", "long_parents_with_large_frozen_sets"]}
+                    "ancestors_checked", "frozen_as_numpy_array", "frozen_list_with_repeats", "frozen_with_negative_entries", "reduced_alphabet_parents", "long_parents_with_large_frozen_sets", "default_shuffle_mobility_checks"]}
 NCASE = {"quick": 700, "thorough": 8000}
 DRAW_BUDGET = 20000
 BACKEND_MOVES = ["full_shuffle", "swapRes", "swapRandChargeRes", "permute_block_swap", "permute_cluster_charges"]
@@ -301,6 +302,8 @@ def judge(case, rep, S):
                 rep.viol("ancestor_altered", "chain element %d (%s) changed after later moves: %r -> %r" % (k, s0[0], s0[:2], snap(q)[:2]),
                          sig={"move": "chain"})
                 break
+    if rep.evaluations % 10 == 0:
+        SALT.default_shuffles_move_everything(S, rep, "frozen_nobody_asked_for", " (after a chain from %s with frozen %r)" % (seq, frozen))
     rep.cnt("rng_draws", shim.total_draws())
     if rep.evaluations % 100 == 1:
         rep.sample({"sequence": seq, "frozen": frozen, "chain": [c[1][0] for c in chain][:8], "hostile": hostile is not None,
